@@ -21,8 +21,8 @@ Semantics kept from the real thing:
 * ``shutdown(wait=True)`` (also at ``__exit__``) lets queued tasks finish, ``cancel_futures`` drops
   the ones not started.
 
-Timeouts other than 0 are treated as "no timeout" (documented limit: the simulator has no model of
-a task that is slow enough to exceed them).
+Timeouts fire only through the scheduler fault ``timeouts_fire`` (``Sim.timed_wait``): a peer can
+always be slower than any finite timeout, fault-free runs never are.
 """
 
 from __future__ import annotations
@@ -109,11 +109,8 @@ class FakeFuture:
     # -- results
     def _wait(self, timeout) -> None:
         sim = self._ex.sim
-        if timeout == 0:
-            if not self.done():
-                raise TimeoutError()
-            return
-        sim.sched_point(("future.result", self._ex.pid, self.fid), cond=self.done)
+        if not sim.timed_wait(("future.result", self._ex.pid, self.fid), self.done, timeout):
+            raise TimeoutError()
         sim.hb_recv(self._clock)
 
     def result(self, timeout=None):
@@ -271,8 +268,7 @@ def wait(fs, timeout=None, return_when=ALL_COMPLETED):
             return True
         return len(done) == len(fs)
 
-    if timeout != 0:
-        sim.sched_point(("futures.wait", return_when, len(fs)), cond=enough)
+    sim.timed_wait(("futures.wait", return_when, len(fs)), enough, timeout)
     done = {f for f in fs if f.done()}
     for f in done:
         sim.hb_recv(f._clock)
